@@ -78,7 +78,8 @@ def members : Nat → Acc → List Char → R
                 match skipWs r4 with
                 | '"' :: _ => members fuel acc' r4
                 | _ => .unmodelled
-              | '}' :: r4 => if (skipWs r4).isEmpty then .ok acc'.wi acc'.wd acc'.m else .unmodelled
+              -- the object is complete and valid: anything but white space after it is a syntax error of the whole text
+              | '}' :: r4 => if (skipWs r4).isEmpty then .ok acc'.wi acc'.wd acc'.m else .err
               | _ => .unmodelled
         | _ => .unmodelled
     | _ => .unmodelled
@@ -87,7 +88,7 @@ def parse (s : List Char) : R :=
   match skipWs s with
   | '{' :: r =>
     match skipWs r with
-    | '}' :: r2 => if (skipWs r2).isEmpty then .ok 0 0 0 else .unmodelled
+    | '}' :: r2 => if (skipWs r2).isEmpty then .ok 0 0 0 else .err
     | _ => members (s.length + 1) {} r
   | 'n' :: _ => .unmodelled            -- `null` leaves the value untouched
   | _ => .err                          -- any other JSON value, or no JSON at all, is an error for a struct
@@ -99,5 +100,7 @@ def isValid (wi wd m : Int) : Bool :=
 example : parse "{\"weekIndex\": 4, \"weekDay\": 6, \"month\": 12}".toList = .ok 4 6 12 := by decide
 example : parse "\"weekIndex\": 0, \"weekDay\": 0, \"month\": 0".toList = .err := by decide
 example : parse "{\"month\": 3}".toList = .ok 0 0 3 := by decide
+example : parse "{\"month\": 3} }".toList = .err := by decide
+example : parse "{\"month\": 3}]x".toList = .err := by decide
 
 end Starcal.WM
